@@ -18,7 +18,8 @@ PROPERTY_ID = "C14"
 LEVEL = "fault_enumeration"
 RULE = (
     "Hypothesis draws (object spec as in C03 incl. payloads around 8 KiB/64 KiB/1 MiB, compressor zlib|gzip|bz2|lzma|xz|raw, "
-    "level, protocol 0..5).  For each resulting joblib file EVERY truncation length 0..len-1 is loaded when len <= 600 "
+    "level, protocol 0..5), plus zlib/gzip files of incompressible data whose length is aligned to k*8192-2..k*8192+10 (the last raw "
+    "refill block then holds only part of the stream trailer).  For each resulting joblib file EVERY truncation length 0..len-1 is loaded when len <= 600 "
     "(exhaustive), otherwise the boundary set {0..12, 8192*i+-1, 2**16+-1, 2**20+-1, len-12..len-1} plus 20 seeded offsets; and "
     "the suffix extensions {1 zero byte, 1..64 seeded random bytes, the file's own magic, a copy of itself, another valid "
     "joblib file with a different compressor}.  Every damaged file is loaded from BytesIO and from a path under a 20 s "
@@ -62,7 +63,18 @@ def strategy():
         "compress": st.sampled_from([False, True, 1, 9]),
         "tseed": st.integers(0, 10 ** 6),
     })
-    return st.integers(0, 4).flatmap(lambda i: memcase if i == 0 else filecase)
+    # files whose compressed length is r bytes past a multiple of the 8192-byte refill block, so that the last raw block
+    # holds only (part of) the stream trailer
+    boundary = st.fixed_dictionaries({
+        "mode": st.just("file"),
+        "obj": st.tuples(st.just("bytesgen"), st.integers(5000, 20000), st.just("rand"), st.integers(0, 1000)).map(list),
+        "method": st.sampled_from(["zlib", "gzip"]),
+        "level": st.sampled_from([1, 3, 9]),
+        "protocol": st.sampled_from([None, 2, 4]),
+        "tseed": st.integers(0, 10 ** 6),
+        "align": st.tuples(st.integers(1, 2), st.integers(-2, 10)).map(list),
+    })
+    return st.integers(0, 5).flatmap(lambda i: memcase if i == 0 else boundary if i == 1 else filecase)
 
 
 def _truncations(n, tseed):
@@ -165,10 +177,26 @@ def run_case(spec):
         return _run_memory(spec)
     scratch = os.environ.get("VF_SCRATCH", "/tmp")
     obj = V.build(spec["obj"])
-    bio = io.BytesIO()
     comp = 0 if spec["method"] == "raw" else (spec["method"], spec["level"])
-    joblib.dump(obj, bio, compress=comp, protocol=spec["protocol"])
-    data = bio.getvalue()
+
+    def dumped(o):
+        b = io.BytesIO()
+        joblib.dump(o, b, compress=comp, protocol=spec["protocol"])
+        return b.getvalue()
+    data = dumped(obj)
+    if spec.get("align"):
+        # incompressible payload: the file grows by one byte per payload byte, adjust until len == blocks*8192 + r
+        blocks, r = spec["align"]
+        want = blocks * 8192 + r
+        n = spec["obj"][1]
+        for _ in range(6):
+            if len(data) == want:
+                break
+            n = max(1, n + (want - len(data)))
+            obj = V.gen_bytes(n, "rand", spec["obj"][3])
+            data = dumped(obj)
+        if len(data) != want:
+            raise Inconclusive("could not align the file length")
     other = io.BytesIO()
     joblib.dump(["other", 1], other, compress=("bz2", 3) if spec["method"] != "bz2" else ("zlib", 3))
     truncs, exhaustive = _truncations(len(data), spec["tseed"])
@@ -202,6 +230,8 @@ def run_case(spec):
     _STATS["n_files_exhaustive"] = _STATS.get("n_files_exhaustive", 0) + int(exhaustive)
     has_container = any(n[0] in ("tuple", "list", "dict", "set", "frozenset", "obj") for _, n in V.nodes(spec["obj"]))
     classes = ["method=" + spec["method"], "exhaustive-truncation" if exhaustive else "boundary-truncation"]
+    if spec.get("align"):
+        classes.append("length=k*8192%+d" % spec["align"][1])
     if outcomes["original"]:
         classes.append("some-damage-still-returned-original")
     return {"nontrivial": has_container and interior and only is None, "classes": classes}
